@@ -186,6 +186,9 @@ func runC20(c *core.Ctx) {
 		}
 		led.Update()
 		o.afterStep()
+		_, _, selA := d.A.SelectedPair()
+		_, _, selB := d.B.SelectedPair()
+		c.State(fmt.Sprintf("A=%s/%v B=%s/%v noms=%d", d.A.LastState(), selA, d.B.LastState(), selB, len(noms)))
 	}
 
 	// 1. ordinary connection (loss-free apart from the held-back checks)
